@@ -404,7 +404,7 @@ func (e *Engine) visit(fr *frame, instr ssa.Instruction) cont {
 	case *ssa.Phi:
 		panic("phi outside block entry")
 	case *ssa.Select:
-		e.abort(abortEngine, "select statement")
+		fr.setReg(in, e.selectOp(fr, in))
 	default:
 		panic(fmt.Sprintf("unexpected instruction %T", instr))
 	}
